@@ -586,20 +586,13 @@ def _safe_redundant(v, x) -> bool:  # noqa: ANN001
 
 
 # ---------------------------------------------------------------------------- RX-add
-def rule_rx_added_exit(prog: Program, report: Report, pid: str) -> None:
-    """An early exit was *added* to an anchored function: every statement and every test of the
-    reviewed function is still there, word for word, and there is an additional `return` / `break` /
-    `continue` / `raise`.  Nothing was removed or re-shaped, so this is not a restructuring of the
-    reviewed code: the function now stops in cases where the reviewed code went on (a fast path, a
-    shortcut for a "trivial" case, an extra refusal).  A refactoring that introduces a guard clause
-    also removes or rewrites what the guard replaces and is not matched."""
+def _anchored_keys(prog: Program, pid: str) -> set[str]:
+    """The functions the property's anchors name (by the tables or by name in the mechanism / observation
+    texts, with their nested functions) - not every function of an anchored file: an exit added to
+    `close()` says nothing about the JSON round trip although both live in replace.py."""
     import json
     import os
-    from collections import Counter
 
-    from ..gates import _REVIEWED, _reviewed, view
-
-    report.rules.append("RX-add")
     here = os.path.dirname(os.path.abspath(__file__))
     fn2 = json.load(open(os.path.join(here, "fn2props.json")))
     # every function of a file the property's anchors name, plus the functions the tables anchor
@@ -619,7 +612,24 @@ def rule_rx_added_exit(prog: Program, report: Report, pid: str) -> None:
         parts = f.qual.split(".")
         return f.module.rel in files and any(p_ in words for p_ in parts if not p_.startswith("__"))
 
-    keys = {k for k, props in fn2.items() if pid in props} | {k for k, f in prog.funcs.items() if named(f)}
+    return {k for k, props in fn2.items() if pid in props} | {k for k, f in prog.funcs.items() if named(f)}
+
+
+def rule_rx_added_exit(prog: Program, report: Report, pid: str) -> None:
+    """An early exit was *added* to an anchored function: every statement and every test of the
+    reviewed function is still there, word for word, and there is an additional `return` / `break` /
+    `continue` / `raise`.  Nothing was removed or re-shaped, so this is not a restructuring of the
+    reviewed code: the function now stops in cases where the reviewed code went on (a fast path, a
+    shortcut for a "trivial" case, an extra refusal).  A refactoring that introduces a guard clause
+    also removes or rewrites what the guard replaces and is not matched."""
+    import json
+    import os
+    from collections import Counter
+
+    from ..gates import _REVIEWED, _reviewed, view
+
+    report.rules.append("RX-add")
+    keys = _anchored_keys(prog, pid)
     n = 0
     for key in sorted(keys):
         if not prog.has_func(key):
@@ -677,6 +687,64 @@ def rule_rx_added_exit(prog: Program, report: Report, pid: str) -> None:
         if not flagged:
             report.ob("RX-add", key, "no exit was added to the reviewed statements")
     report.count("RX-add anchored functions compared with their reviewed statements", n)
+
+
+# ---------------------------------------------------------------------------- RX-guard
+def rule_rx_guard(prog: Program, report: Report, pid: str) -> None:
+    """A reviewed statement of an anchored function is performed in different cases: every statement
+    and every test of the reviewed function is still there, word for word, no exit was added (RX-add
+    judges those), and yet some statement has a different control context - it moved under a test
+    (`add_range(to, None, ..)` indented into `if open_start:`), across a test whose branch leaves the
+    iteration (`del_info |= ..` hoisted above the `continue` of the mirror shortcut), into or out of a
+    loop, or a new test was wrapped around it.  The context is read off the CFG (dominating test
+    outcomes, loops around, exits not dominated), so `else:` after a `return` and the like do not count."""
+    import json
+    import os
+    from collections import Counter
+
+    from ..gates import _reviewed, stmt_contexts, view
+
+    report.rules.append("RX-guard")
+    n = 0
+    for key in sorted(_anchored_keys(prog, pid)):
+        if not prog.has_func(key):
+            continue
+        v = view(prog, key)
+        rv = _reviewed(v)
+        if rv is None or not rv.get("ctx"):
+            continue
+        fn = v.fn
+        stmts = [st for st in walk_own(fn.node) if isinstance(st, (ast.Assign, ast.AnnAssign, ast.AugAssign, ast.Expr, ast.Return, ast.Raise, ast.Break, ast.Continue, ast.Delete, ast.Assert)) and not (isinstance(st, ast.Expr) and isinstance(st.value, ast.Constant))]
+        now = Counter(" ".join(src(st).split()) for st in stmts)
+        tests_now = Counter([" ".join(src(st.test).split()) for st in walk_own(fn.node) if isinstance(st, (ast.If, ast.While))] + ["for " + " ".join(src(st.target).split()) + " in " + " ".join(src(st.iter).split()) for st in walk_own(fn.node) if isinstance(st, ast.For)])
+        old, tests_old = Counter(rv["stmts"]), Counter(rv["tests"])
+        n += 1
+        if old - now or tests_old - tests_now:
+            report.ob("RX-guard", key, "the function differs from the reviewed one by more than moves and additions (judged by the other rules)", nontrivial=False)
+            continue
+        extra = now - old
+        if any(isinstance(st, (ast.Return, ast.Break, ast.Continue, ast.Raise)) and extra.get(" ".join(src(st).split()), 0) > 0 for st in stmts):
+            report.ob("RX-guard", key, "an exit was added (judged by RX-add)", nontrivial=False)
+            continue
+        try:
+            ctx = stmt_contexts(v)
+        except Exception:  # noqa: BLE001 - no CFG, nothing to compare
+            continue
+        flagged = False
+        for text, olds in sorted(rv["ctx"].items()):
+            nows = ctx.get(text, [])
+            missing = Counter(olds) - Counter(nows)
+            if not missing:
+                continue
+            surplus = Counter(nows) - Counter(olds)
+            st = next((x for x in stmts if " ".join(src(x).split()) == text), None)
+            was = next(iter(missing))
+            isnow = next(iter(surplus), "<not reached>")
+            report.violate("RX-guard", fn, st or fn.node, f"`{text[:60]}` is performed in different cases", f"every statement and test of the reviewed {fn.qual} is unchanged, but `{text[:60]}` was reviewed [{was[:200]}] and is now [{isnow[:200]}]: it moved under / across a test or a loop, so it is skipped or repeated in cases where the reviewed code performed it once", what="the statements of an otherwise unchanged anchored function keep their control context")
+            flagged = True
+        if not flagged:
+            report.ob("RX-guard", key, "every reviewed statement keeps its control context")
+    report.count("RX-guard anchored functions compared with their reviewed control contexts", n)
 
 
 # ---------------------------------------------------------------------------- RK-const / RD-default
